@@ -148,7 +148,7 @@ def run_property(prop, tier="quick", replay=None):
     for o in ctx.obs:
         if not o.ok:
             viols.setdefault(o.full_key(prop), o)
-    outdir = os.path.join(VERIF, "out", prop)
+    outdir = os.path.join(os.environ.get("VERIF_OUT_DIR") or os.path.join(VERIF, "out"), prop)
     os.makedirs(outdir, exist_ok=True)
     n_unlisted = 0
     n_known = 0
@@ -252,8 +252,9 @@ def write_evidence(mod, ctx, prop, tier, wall, n_unlisted, n_known, viols, known
         "assumptions": getattr(mod, "TRUSTED", []),
     }
     ev["coverage"].update(ctx.extra)
-    os.makedirs(os.path.join(VERIF, "evidence"), exist_ok=True)
-    p = os.path.join(VERIF, "evidence", prop + ".json")
+    evdir = os.environ.get("VERIF_EVIDENCE_DIR") or os.path.join(VERIF, "evidence")
+    os.makedirs(evdir, exist_ok=True)
+    p = os.path.join(evdir, prop + ".json")
     tmp = p + ".tmp%d" % os.getpid()
     with open(tmp, "w") as f:
         json.dump(ev, f, indent=1, default=str)
